@@ -1,6 +1,8 @@
 import fractions
+import logging
 from typing import Optional, cast
 
+import av
 from av import AudioFrame, AudioResampler, CodecContext
 from av.frame import Frame
 from av.packet import Packet
@@ -8,6 +10,8 @@ from av.packet import Packet
 from ..jitterbuffer import JitterFrame
 from ..mediastreams import convert_timebase
 from .base import Decoder, Encoder
+
+logger = logging.getLogger(__name__)
 
 SAMPLE_RATE = 48000
 SAMPLES_PER_FRAME = 960
@@ -22,10 +26,14 @@ class OpusDecoder(Decoder):
         self.codec.sample_rate = SAMPLE_RATE
 
     def decode(self, encoded_frame: JitterFrame) -> list[Frame]:
-        packet = Packet(encoded_frame.data)
-        packet.pts = encoded_frame.timestamp
-        packet.time_base = TIME_BASE
-        return cast(list[Frame], self.codec.decode(packet))
+        try:
+            packet = Packet(encoded_frame.data)
+            packet.pts = encoded_frame.timestamp
+            packet.time_base = TIME_BASE
+            return cast(list[Frame], self.codec.decode(packet))
+        except av.FFmpegError as e:
+            logger.warning("OpusDecoder() failed to decode, skipping package: " + str(e))
+            return []
 
 
 class OpusEncoder(Encoder):
